@@ -192,6 +192,7 @@ CONTRACTS = [
 
     # ------------------------------------------------------------------ _InflightOperations
     Contract(F + "::_InflightOperations.wait_for_next_op", returns=HANDLE_OP, props=["C09", "C01", "C03", "C04"],
+             prefer_ext={"SigchldHelper.wait": "SigchldHelper.wait"},
              locals={"pid": "int", "returncode": "int"},
              requires=[C("registry_keyed_by_handle_pid", "forall(p, 'int', implies(p in self._processes, self._processes[p][0].pid == p))")],
              modifies=["dict@self._processes", "list@self._sync_ops", "OperationExecutionHandle.returncode", "g_reaped"],
